@@ -100,6 +100,12 @@ func (p *ProofU) reconstructUcommit(pk *gabikeys.PublicKey) (*big.Int, error) {
 	Ucommit.Mul(Ucommit, R0s).Mod(Ucommit, pk.N)
 
 	for i, miUserResponse := range p.MUserResponses {
+		// Base R_0 belongs to the secret key, whose only response is SResponse: a second
+		// response for R_0 would let SResponse be chosen freely (e.g. equal to that of another
+		// proof) while the real secret hides in the extra response.
+		if i == 0 {
+			return nil, errors.New("user response for the secret key base is not allowed")
+		}
 		Rimi, err := common.ModPow(pk.R[i], miUserResponse, pk.N)
 		if err != nil {
 			return nil, err
